@@ -28,6 +28,18 @@ WITNESS = [
     canon(((N([0], N([1])), N([2], N([3]))), ())),
     canon(((N([0]), N([1]), N([2]), N([3])), ())),
 ]
+# found by this check: a fully covered clade above another one -> the merged node is its own descendant (cycle)
+WITNESS_CYCLE = [
+    canon(((N([0]), N([3], N([2], N([1])))), ())),
+    canon(((N([0], N([3], N([1], N([2])))),), ())),
+    canon(((N([3], N([0]), N([1]), N([2])),), ())),
+]
+# six points: the merged empty node gets two parents (a DAG); the table then reports a negative prevalence
+WITNESS_DAG = [
+    canon(((N([4], N([1], N([0]))), N([5], N([3], N([2])))), ())),
+    canon(((N([4], N([0], N([1]))), N([5], N([2], N([3])))), ())),
+    canon(((N([4], N([0]), N([1])), N([5], N([2]), N([3]))), ())),
+]
 
 
 def own_sets(family):
@@ -119,7 +131,8 @@ def eval_case(n_points, specs, weights, thr, detail=False):
                 prob = ("C16:get_tree_from_consensus_graph:outliers:%s" % shape, "outliers %r, uncovered points %r" % (out[1], sorted(pts - cov)))
     except AbsError as e:
         out = None
-        prob = ("C16:from_dict_nx:invalid-tree:%s" % shape, "the consensus tree is not a valid tree: %s" % e)
+        key = "C16:relabel:two-empty-own-sets:not-a-forest" if shape == "two-empty-own-sets" else "C16:from_dict_nx:invalid-tree:%s" % shape
+        prob = (key, "the consensus tree is not a valid tree: %s" % e)
     obs = None
     if detail:
         cp = clade_probabilities(trees, weighted=weights is not None, log_p_list=weights)
@@ -253,7 +266,8 @@ def run(ctx):
         for i in range(0, len(cases), 4000):
             work.append((n_points, cases[i : i + 4000]))
 
-    add(4, [tuple(WITNESS)], THRESHOLDS, [None, 2])
+    add(4, [tuple(WITNESS), tuple(WITNESS_CYCLE)], THRESHOLDS, [None, 2])
+    add(6, [tuple(WITNESS_DAG)], [0.5], [None])
     s3 = all_specs(range(3), outliers=True)
     s4 = all_specs(range(4), outliers=False)
     m3 = [ms for k in (1, 2, 3) for ms in itertools.combinations_with_replacement(s3, k)]
@@ -301,8 +315,8 @@ def run(ctx):
     for fi in range(n_files):
         n = rng.choice([3, 4])
         pool_all = s3 if n == 3 else s4
-        if fi == 0:
-            n, pool = 4, list(WITNESS)
+        if fi < 3:
+            n, pool = [(4, WITNESS), (4, WITNESS_CYCLE), (6, WITNESS_DAG)][fi]
             chains = {0: [(0.0, pool[0], ("plain", 0)), (0.0, pool[1], ("plain", 0)), (0.0, pool[2], ("plain", 0))]}
         else:
             pool = [rng.choice(pool_all) for _ in range(rng.randint(1, 3))]
@@ -342,6 +356,9 @@ def run(ctx):
                 fn = o["where"].split(":")[-1]
                 if fn == "convert_rustworkx_to_networkx" and not want:
                     ctx.count("cmd/no-clade-retained:KeyError-root(C12 finding)")
+                    continue
+                if shape == "two-empty-own-sets":
+                    ctx.fail("C16:relabel:two-empty-own-sets:not-a-forest", "write_consensus_results raised %s(%s) at %s: the relabelled consensus graph is not a forest" % (o["error"], o["message"], o["where"]), dict(replay, error=o))
                     continue
                 ctx.fail("C16:%s:%s:%s" % (fn, o["error"], shape), "write_consensus_results raised %s(%s) at %s" % (o["error"], o["message"], o["where"]), dict(replay, error=o))
                 continue
